@@ -211,8 +211,11 @@ fn search_decl_references_with_ctx<'a>(
             .get_decl_references(&decl_id.file_id, &decl_id)
             .unwrap_or(&no_refs);
         let document = semantic_model.get_document();
+        // the name token only: the range of `local x <const>` also covers the attribute
+        let decl_name_range =
+            rowan::TextRange::at(decl.get_position(), rowan::TextSize::of(decl.get_name()));
         if ctx.include_declaration
-            && let Some(location) = document.to_lsp_location(decl.get_range())
+            && let Some(location) = document.to_lsp_location(decl_name_range)
         {
             result.push(location);
         }
